@@ -424,6 +424,15 @@ def run(ctx):
     stress = read_jsonl(os.path.join(ctx.work, "c28_stress.jsonl"))
     if rc != 0 or len(traces) != len(scs):
         ctx.tie_broken("go-harness internal/net client pool", out)
+    # end to end: RemoteAsk / RemoteBatchAsk through remoteclient to a real actor system
+    e2e_p = os.path.join(ctx.work, "c28_e2e.jsonl")
+    if os.path.exists(e2e_p):
+        os.remove(e2e_p)
+    rc_e, out_e = ctx.go_test("actor", "^TestVerifC28Actor", ["zz_verif_C28_test.go"],
+                              env={"VERIF_C28_E2E_ROUNDS": "30" if ctx.thorough else "6"}, timeout=1200)
+    e2e = read_jsonl(e2e_p)
+    if rc_e != 0 or not e2e:
+        ctx.tie_broken("go-harness actor RemoteAsk/RemoteBatchAsk", out_e)
 
     reported = {}
     n_viol = 0
@@ -449,6 +458,14 @@ def run(ctx):
         for sig, what in stress_oracle(r):
             report(sig, what, {"object": "internal/net.Client stress", "round": {k: v for k, v in r.items() if k != "calls"},
                                "rerun": "VERIF_SEED=%d bin/check C28 %s" % (ctx.seed, ctx.tier)})
+
+    for c in e2e:
+        if not c.get("err") and (c.get("res") or []) != c["reqs"]:
+            report("remote-ask:foreign-reply" if not c["batch"] else "remote-batch-ask:order",
+                   "%s round %d (pool bound %d) caller %d sent %s and received %s" %
+                   ("RemoteBatchAsk" if c["batch"] else "RemoteAsk", c["round"], c["max_idle"], c["t"], c["reqs"], c.get("res")),
+                   {"object": "remoteclient.RemoteAsk/RemoteBatchAsk -> actor.remoteAskHandler", "call": c,
+                    "rerun": "VERIF_SEED=%d bin/check C28 %s" % (ctx.seed, ctx.tier)})
 
     codes = None
     if traces:
@@ -480,7 +497,7 @@ def run(ctx):
             op_hist[key] = op_hist.get(key, 0) + 1
     calls = [c for r in stress for c in (r.get("calls") or [])]
     ctx.coverage.update({
-        "evaluations": len(traces) + len(stress),
+        "evaluations": len(traces) + len(stress) + len(e2e),
         "distinct_nontrivial": len({canon_hash([e for e in tr["events"] if e["k"] != "snap"]) for tr in traces if nontrivial(tr)}) + sum(1 for r in stress if any(c.get("err") for c in r.get("calls") or [])),
         "rule": "scenarios: corpus (deadline expires while the request is inside the handler and the response arrives late; batch cancelled between reads; interleaved batches on a pool of one; server closes mid-batch; pool full; stale eviction; pool bound 0) + seeded random scripts (2-4 callers, pool bound 0-4); non-trivial = some call fails or >= 3 calls; distinct by event log. stress rounds: non-trivial = at least one call timed out",
         "samples": [scs[0], [e for e in traces[0]["events"] if e["k"] != "snap"][:14] if traces else None,
@@ -488,6 +505,7 @@ def run(ctx):
         "scenario_ops": op_hist, "scenarios": len(traces), "stress_rounds": len(stress),
         "stress_calls": len(calls), "stress_calls_failed": sum(1 for c in calls if c.get("err")),
         "stress_batch_calls": sum(1 for c in calls if len(c["reqs"]) > 1),
+        "e2e_calls": len(e2e), "e2e_failed": sum(1 for c in e2e if c.get("err")), "e2e_batch_ok": sum(1 for c in e2e if c["batch"] and not c.get("err")),
         "model_replay_failures": None if codes is None else sum(1 for c in codes if c != (0, 0)),
         "oracle_violations": n_viol,
         "theorems": ["C28_own_reply", "C28_exclusive_checkout", "C28_held_not_pooled", "C28_idle_clean", "C28_pool_bound",
@@ -496,6 +514,7 @@ def run(ctx):
 
 
 META = {
+    "ready": True,
     "category": "proof",
     "technique": "Rocq proof (inductive invariant over a transition system of pool, exchanges and server loop) + event-log replay of the real client/server through the model + id oracle under scripted and real-goroutine schedules",
     "text": "For every interleaving of any number of callers over any pool bound, with handlers of any latency and failures at any point, a call that returns successfully returns the responses to its own requests in request order; checkout is exclusive; every pooled connection is clean; a connection on which anything failed is closed and never pooled again.",
